@@ -225,7 +225,7 @@ class C06(Check):
         plan["unsolicited"] = []
         if rng.random() < 0.04:
             # many frames nobody reads (other testers' traffic) pile up while the client is idle; then an alive check
-            flood = [{"f": "data_other", "d": 0.0005, "join": rng.random() < 0.5, "v": k % 3} for k in range(rng.choice([33, 40, 100, 250]))]
+            flood = [{"f": "data_other", "d": 0.0005, "join": rng.random() < 0.5, "v": k % 3} for k in range(rng.choice([33, 40, 100, 250, 300, 700]))]
             flood.append({"f": "alive", "d": 0.01, "join": False, "len": 0})
             plan["unsolicited"].append({"at": 0.02, "frames": flood})
             ops.insert(0, {"op": "sleep", "d": 1.5})
